@@ -363,7 +363,42 @@ func c25Val(r *rand.Rand) string {
 	return vu.Hex(b)
 }
 
+// exhaustive small scope (thorough tier): every history of up to 4 operations over the alphabet
+// {put db0, put db1, delete db0, drop db0, drop db1, GetUnderlying db1, flush}, closed by a flush, in both modes
+func c25Exhaustive(emit func(...string)) {
+	alpha := [][]string{{"P", "0", "61", "31"}, {"P", "1", "61", "32"}, {"D", "0", "61"}, {"X", "0"}, {"X", "1"}, {"U", "1"}, {"F"}}
+	var rec func(mode string, depth int, cur [][]string)
+	rec = func(mode string, depth int, cur [][]string) {
+		if len(cur) > 0 {
+			in := []string{mode, "ff", "1"}
+			fl := 0
+			for _, o := range cur {
+				in = append(in, ";")
+				if o[0] == "F" {
+					fl++
+					in = append(in, "F", fmt.Sprintf("%02x", fl))
+				} else {
+					in = append(in, o...)
+				}
+			}
+			in = append(in, ";", "F", fmt.Sprintf("%02x", fl+1))
+			emit(in...)
+		}
+		if depth == 0 {
+			return
+		}
+		for _, o := range alpha {
+			rec(mode, depth-1, append(append([][]string{}, cur...), o))
+		}
+	}
+	rec("pool", 4, nil)
+	rec("flag", 4, nil)
+}
+
 func c25Gen(r *rand.Rand, n int, tier string, emit func(...string)) {
+	if tier == "thorough" {
+		c25Exhaustive(emit)
+	}
 	for i := 0; i < n; i++ {
 		mode := "pool"
 		if r.Intn(5) < 2 {
@@ -431,8 +466,12 @@ func c25Gen(r *rand.Rand, n int, tier string, emit func(...string)) {
 						id = ids[r.Intn(len(ids)-1)]
 					}
 				}
-				if len(ids) > 0 && ids[len(ids)-1] == id {
-					id = id + "00"
+				if len(ids) > 0 && ids[len(ids)-1] == id && !(mode == "flag" && r.Intn(3) == 0) {
+					id = id + "00" // consecutive equal IDs only in flag mode, rarely (weaker guarantee there)
+				}
+				if mode == "flag" && len(ids) > 0 && r.Intn(15) == 0 {
+					id = ids[len(ids)-1]
+					vu.Stat("flag_same_consecutive_id")
 				}
 				if id == "-00" {
 					id = "00"
